@@ -1772,6 +1772,10 @@ impl<'a> Query<'a> {
         }
         s += self.querytype().as_str();
         s += " ";
+        if self.qualifier() == QueryQualifier::Optional {
+            s += self.qualifier().as_str();
+            s += " ";
+        }
         if let Some(resulttype) = self.resulttype_as_str() {
             s += resulttype;
         }
